@@ -2,7 +2,7 @@
    domain and the nodes are strictly ascending.  (The number of nodes is n by construction of the index-function
    model; the length of the implementation's arrays is checked by the correspondence.) *)
 From Coq Require Import Reals Arith.
-From P Require Import C01_gen C01_model C01_proofs_shape C01_proofs_assemble.
+From P Require Import C01_gen C01_model C01_proofs_shape C01_proofs_tref C01_proofs_trefshape.
 Open Scope R_scope.
 
 Theorem shape_GaussChebyshevLobatto : forall n k, (2 <= n)%nat -> (k < n)%nat ->
